@@ -261,3 +261,46 @@ func TestD15BUPRunLiterals(t *testing.T) {
 		t.Skip("no suitable bytes found")
 	}
 }
+
+// D16: doubleHashDictionary.processSegment stored unmasked values, which contain
+// bytes of the margin behind the data: a parser that reuses its buffer after
+// Reset finds other matches than a new parser.
+func TestD16DHPResetMargin(t *testing.T) {
+	cfg := BDHPConfig{BufferSize: 8, ShrinkSize: 1, WindowSize: 8, BlockSize: 5, InputLen1: 2, InputLen2: 3, HashBits1: 1, HashBits2: 1}
+	run := func(p Parser) []Block {
+		var out []Block
+		if err := p.Reset(nil); err != nil {
+			t.Fatal(err)
+		}
+		p.Write([]byte{241, 72, 84, 0})
+		if n, err := p.Parse(nil, 0); n != 4 || err != nil {
+			t.Fatal(n, err)
+		}
+		p.Write([]byte{14, 72, 84})
+		for {
+			var blk Block
+			if _, err := p.Parse(&blk, 0); err != nil {
+				break
+			}
+			out = append(out, Block{Sequences: append([]Seq(nil), blk.Sequences...), Literals: append([]byte(nil), blk.Literals...)})
+		}
+		return out
+	}
+	used, err := cfg.NewParser()
+	if err != nil {
+		t.Fatal(err)
+	}
+	used.Write([]byte{9, 9, 9, 9, 1}) // leaves the byte 1 behind the four bytes written after the Reset
+	var tmp Block
+	used.Parse(&tmp, 0)
+	fresh, _ := cfg.NewParser()
+	a, b := run(used), run(fresh)
+	if len(a) != len(b) {
+		t.Fatalf("reset parser: %+v, new parser: %+v", a, b)
+	}
+	for i := range a {
+		if len(a[i].Sequences) != len(b[i].Sequences) || !bytes.Equal(a[i].Literals, b[i].Literals) {
+			t.Fatalf("reset parser: %+v, new parser: %+v", a, b)
+		}
+	}
+}
